@@ -22,7 +22,7 @@ func init() {
 				"(burn) RemoveLiquidity passes the token's Volume() as totalSupply to PairBurn with data.Liquidity, burns exactly data.Liquidity from the token's volume and from the sender's balance, and credits the returned amounts in the pool's coins to the sender; " +
 				"(key) every access of the live pool table uses the normalised (sorted) coin pair, so a pool cannot be missed or created twice when the coins arrive in the other order; (token) in all three the token is the one named LiquidityCoinSymbol(<id of the pool (data.Coin0, data.Coin1)>).",
 			Assumptions: stdAssumptions,
-			Rules:       []string{"C13.create", "C13.mint", "C13.burn", "C13.key", "C13.sim", "C13.formula"},
+			Rules:       []string{"C13.create", "C13.mint", "C13.burn", "C13.key", "C13.sim", "C13.formula", "C13.const"},
 		},
 		Run: runC13,
 	})
@@ -51,6 +51,7 @@ func extractOf(v ssa.Value, call ssa.Value, idx int) bool {
 func runC13(c *core.Ctx) {
 	defer checkRunningSimulation(c, "C13.sim")
 	defer checkPoolFormulas(c, "C13.formula")
+	defer checkGlobalBigConstants(c, "C13.const")
 	for _, m := range LiveModels(c, "C13.create") {
 		switch m.H.ConstName {
 		case "TypeCreateSwapPool":
